@@ -15,6 +15,7 @@ RULE = (
     "y = h.x + n for supplied csi/noise, shape preserved. Statistical clauses with x=1, zero noise, coherence 1 on N=1e6 (quick) / 4e6 (thorough) coefficients: component means and "
     "variances by exact Gaussian / chi-square tests (which decide unit mean-square gain and the Rician K-factor), independence of neighbouring blocks and of batch items by an exact "
     "Binomial sign-agreement test, noise power relative to the faded signal by a chi-square test; level 1e-9/2000 per test. Distinct = configuration; non-trivial = random coefficients."
+    " Added after the seeded-fault rounds: exact detector for coefficients shared between blocks / batch items, log-normal statistical units, distribution-free median-split independence test on |h|^2."
 )
 ASSUMPTIONS = ["per-test level alpha = 1e-9/2000", "log-normal shadowing is judged on structure and shape only (the property makes no unit-gain claim for it)", "global torch generator seeded per case"]
 REQUIRED = ["block-constant gain", "coefficients not shared between blocks / batch items", "y=h*x+n with supplied csi/noise", "shape preserved", "unit mean-square gain / K-factor", "independent across blocks and batch items", "noise calibrated on the faded signal"]
